@@ -5,7 +5,7 @@
      new:        kind, dec, secs (per output: is it a section output), sts (per output: index of its stream)
      quiet:      g (outputs the setter call configures), q          verbosity: g, v
      write:      role ("io"|"output"|"section"), name, o (output the call is made on; io: 1), adr (outputs the caller
-                 addresses: io entries - all of them), f (flag word, -1 = None / not passed), t (id of the text), sh (its
+                 addresses: the output itself; IO.write* the standard, IO.error* the error output, other I/O entries both), f (flag word, -1 = None / not passed), t (id of the text), sh (its
                  shape: the marker m<t>. alone / ending in a newline / after a line break / between blanks, or - without
                  a marker - empty / blanks / a newline), hasText (the entry takes a text and the shape has a marker), res ("ok" or the exception class),
                  ids (per stream: marker ids found in what arrived during the call), any (per stream: did any byte arrive)
@@ -54,7 +54,8 @@ TWrite ==
                                          /\ (e.sh \in NoMarkShapes => ~e.hasText))
         \* nothing reaches the stream of an addressed output whose gate is shut for this call
         /\ Check(tid, l, "P.gate.closed", KeyOf(e),
-                 \A x \in adr : ~Open(outs[x], e.f) => (~e.any[outs[x].st] /\ e.ids[outs[x].st] = <<>>))
+                 /\ \A x \in adr : ~Open(outs[x], e.f) => (~e.any[outs[x].st] /\ e.ids[outs[x].st] = <<>>)
+                 /\ (\A x \in adr : ~Open(outs[x], e.f)) => \A s \in Streams : ~e.any[s] /\ e.ids[s] = <<>>)
         \* the text reaches a stream when the gate of every addressed output is open
         /\ Check(tid, l, "P.gate.open", KeyOf(e),
                  (e.hasText /\ e.res = "ok" /\ \A x \in adr : Open(outs[x], e.f)) => e.t \in Got(e))
